@@ -29,6 +29,7 @@ _WARMUP = ()
 def _jud(t):
     tag, chunk, stop_at = t
     core.reset_ambient()
+    core.maybe_prior(["E2"] + list(tag))
     scratch = _JUDGE(None, None)
     for s in _WARMUP:          # the seeds are (re)judged first in every fresh process: a string is
         _JUDGE(scratch, s)     # then always evaluated *after* the valid vectors it derives from
